@@ -39,7 +39,7 @@ vars == <<cfg, hdr, body, pc, path>>
 ContentTypes == {"html", "htmlcharset", "other", "none"}
 Encodings    == {"none", "gzip", "br", "unsupported"}
 Requests     == {"plain", "htmx"}
-Csps         == {"none", "scriptsrc", "several", "otheronly", "nononce", "afterother"}
+Csps         == {"none", "scriptsrc", "several", "otheronly", "nononce", "afterother", "defaultfirst"}
 Bodies       == {"empty", "fragment", "full", "scriptbody", "nonascii", "scripts", "frameset"}
 Accepts      == {"browser", "absent"}
 
@@ -51,9 +51,10 @@ HasBody(b) == b # "frameset"                           \* html.Parse synthesises
 ScriptNonces(csp) == CASE csp = "scriptsrc"  -> {"N1"}
                        [] csp = "several"    -> {"N1", "N2"}
                        [] csp = "afterother" -> {"N1"}
+                       [] csp = "defaultfirst" -> {"N1"}     \* default-src carries a DIFFERENT nonce in front of script-src
                        [] OTHER              -> {}
 \* parseNonce: the first nonce source of the first script-src directive that has one
-ParseNonce(csp) == CASE csp \in {"scriptsrc", "several", "afterother"} -> "N1"
+ParseNonce(csp) == CASE csp \in {"scriptsrc", "several", "afterother", "defaultfirst"} -> "N1"
                      [] OTHER -> ""
 
 Init ==
